@@ -159,7 +159,10 @@ std::optional<sqf::runtime::fileio::pathinfo> sqf::fileio::impl_default::get_inf
 {
     log(logmessage::fileio::ResolvePhysicalRequested(current.physical, current.virtual_, viewVirtual));
 
-    std::filesystem::path toFindPath(viewVirtual);
+    // Backslashes are path separators here as well (as in get_info_virtual and add_mapping)
+    std::string viewNormalized(viewVirtual);
+    std::replace(viewNormalized.begin(), viewNormalized.end(), '\\', '/');
+    std::filesystem::path toFindPath(viewNormalized);
     toFindPath = toFindPath.lexically_normal();
     if (toFindPath.is_relative() || (viewVirtual.size() > 3 && (viewVirtual.substr(0, 3) == "../"sv || viewVirtual.substr(0, 3) == "..\\"sv)))
     {
@@ -181,15 +184,17 @@ std::optional<sqf::runtime::fileio::pathinfo> sqf::fileio::impl_default::get_inf
         for (auto& phys : it->physical)
         {
             log(logmessage::fileio::ResolvePhysicalTestingAgainst(current.physical, current.virtual_, phys.string()));
-            auto pair = std::mismatch(phys.begin(), phys.end(), toFindPath.begin());
+            // The request may be shorter than the root: compare within both ranges only
+            auto pair = std::mismatch(phys.begin(), phys.end(), toFindPath.begin(), toFindPath.end());
             auto rootEnd = std::get<0>(pair);
-            auto nothing = std::get<0>(pair);
-            if (rootEnd == phys.end() && !std::equal(phys.begin(), phys.end(), toFindPath.begin(), toFindPath.end()))
+            if (rootEnd == phys.end() && !std::equal(phys.begin(), phys.end(), toFindPath.begin(), toFindPath.end())
+                && toFindPath.string().size() > phys.string().size())
             {
                 log(logmessage::fileio::ResolvePhysicalMatched(current.physical, current.virtual_, phys.string()));
-                toFindPath = it->virtual_full + "/" + toFindPath.string().substr(phys.string().size() + 1);
-                toFindPath = toFindPath.lexically_normal();
-                auto toFindString = toFindPath.string();
+                // (a local: the request has to stay intact for the remaining roots)
+                std::filesystem::path virtualPath = it->virtual_full + "/" + toFindPath.string().substr(phys.string().size() + 1);
+                virtualPath = virtualPath.lexically_normal();
+                auto toFindString = virtualPath.string();
                 std::replace(toFindString.begin(), toFindString.end(), '\\', '/');
                 auto res = get_info_virtual(toFindString, current);
                 if (res.has_value())
